@@ -1316,12 +1316,13 @@ class Sim:
             rows = None
             for bid, b in self.batches.items():
                 if b["state"] == "RUNNING" and b["seen"] and not any(a.node == str(bid) and a.role == "probe" for a in self.actors.values()):
-                    if not any(a.node == str(bid) and "try-submit-jobs" in a.cmd for a in self.actors.values()):
+                    nodeactors = [a for a in self.actors.values() if a.node == str(bid)]
+                    if not any("try-submit-jobs" in a.cmd for a in nodeactors) and not any(self.holds_lock(a) for a in nodeactors):
                         rows = rows if rows is not None else set(self._rows_on_disk())
-                        if all(j in rows for j in b["jobs"] if j in {x for x, ls in self.launches.items()}):
+                        if b["jobs"] and all(j in rows for j in b["jobs"]):
                             cands.append((5.0, "faultkill", bid))
         f = self.scen.get("faults") or {}
-        if f.get("node_kill") and self.fault_budget > 0:
+        if f.get("node_kill") and self.fault_budget > 0 and f.get("node_kill_w", 0.02) > 0:
             for bid, b in self.batches.items():
                 if b["state"] == "RUNNING" and b["seen"]:
                     # a node killed while it acts as submitter belongs to C11, not C12
@@ -1747,6 +1748,11 @@ class Sim:
             for b in self.jobs[name]["blocked_by"]:
                 if b not in final and any(l["epoch"] == self.epoch for l in ls):
                     self.viol("C12", "started-with-missing-blocker", f"{name} was started although its blocker {b} has no result")
+        # a result that is on disk when the submission is declared complete must be in the final results
+        if not self.rows_unknown:
+            for name in rows:
+                if name in self.jobs and name not in final:
+                    self.viol("C12", "recorded-result-reported-missing", f"{name} has a recorded result ({rows[name][0][:2]} in {rows[name][0][3]}) but the completed submission reports it as missing")
         # jobs that really finished on a node that was not killed keep their result
         for name, rcs in fin.items():
             if name not in final and name not in self.killed_jobs:
